@@ -377,7 +377,10 @@ def _wrap_layer_rule_assert():
         except Exception as e:  # noqa: BLE001
             HUB.acc.mark_inconclusive(f"judge_layer_rule crashed: {type(e).__name__}: {e}")
         if exc is not None:
-            raise exc
+            try:
+                raise exc
+            finally:
+                exc = None  # no frame <-> traceback cycle: the architecture must be able to die with its last user
 
     assert_applies._pta_orig = orig
     LayerRule.assert_applies = assert_applies
@@ -490,7 +493,10 @@ def _wrap_puml_parse():
         except Exception as e:  # noqa: BLE001
             HUB.acc.mark_inconclusive(f"judge_parse crashed: {type(e).__name__}: {e}")
         if exc is not None:
-            raise exc
+            try:
+                raise exc
+            finally:
+                exc = None  # no frame <-> traceback cycle: the architecture must be able to die with its last user
         return res
 
     parse._pta_orig = orig
@@ -599,7 +605,10 @@ def _wrap_diagram_rule():
         except Exception as e:  # noqa: BLE001
             HUB.acc.mark_inconclusive(f"judge_diagram_rule crashed: {type(e).__name__}: {e}")
         if exc is not None:
-            raise exc
+            try:
+                raise exc
+            finally:
+                exc = None  # no frame <-> traceback cycle: the architecture must be able to die with its last user
 
     assert_applies._pta_orig = orig
     DiagramRule.assert_applies = assert_applies
@@ -762,7 +771,10 @@ def _wrap_draw():
         except Exception as e:  # noqa: BLE001
             HUB.acc.mark_inconclusive(f"judge_visualize crashed: {type(e).__name__}: {e}")
         if exc is not None:
-            raise exc
+            try:
+                raise exc
+            finally:
+                exc = None  # no frame <-> traceback cycle: the architecture must be able to die with its last user
 
     visualize._pta_orig = orig_vis
     EvaluableArchitectureGraph.visualize = visualize
